@@ -227,7 +227,7 @@ class Check:
         bad = self.hygiene()
         if bad:
             self.broken("hygiene: forbidden token in Lean sources", "\n".join(bad))
-        lock = open(LEAN / ".build.lock", "w")
+        lock = open(LEAN / ".build.lock", "a")
         fcntl.flock(lock, fcntl.LOCK_EX)
         try:
             exe = self._run(["lake", "build", "nessai_model"])
@@ -294,7 +294,21 @@ class Check:
         lines = list(lines)
         if not lines:
             return []
-        r = subprocess.run([str(MODEL_BIN)], input="\n".join(lines) + "\n", capture_output=True, text=True, timeout=1800)
+        # shared lock: the driver is never relinked (exclusive lock in prove()) while it is running
+        lock = open(LEAN / ".build.lock", "a")
+        fcntl.flock(lock, fcntl.LOCK_SH)
+        try:
+            for attempt in range(3):
+                try:
+                    r = subprocess.run([str(MODEL_BIN)], input="\n".join(lines) + "\n", capture_output=True, text=True, timeout=1800)
+                    break
+                except OSError:
+                    if attempt == 2:
+                        raise Infra("nessai_model could not be executed")
+                    time.sleep(1.0)
+        finally:
+            fcntl.flock(lock, fcntl.LOCK_UN)
+            lock.close()
         out = r.stdout.split("\n")
         if out and out[-1] == "":
             out.pop()
